@@ -54,8 +54,10 @@ fn cell(ty: u8) -> BoxedStrategy<Cell> {
     }
     match ty {
         0 => prop_oneof![
-            6 => gen::from_alphabet("abcdefghijklmnopqrstuvwxyzABCDEFGHIJKLMNOPQRSTUVWXYZ0123456789 _-,.<>/\\\"'!?\t\r\n\x01\x7f", 0, 24),
-            1 => gen::from_alphabet("abc XYZ", 25, 300),
+            60 => gen::from_alphabet("abcdefghijklmnopqrstuvwxyzABCDEFGHIJKLMNOPQRSTUVWXYZ0123456789 _-,.<>/\\\"'!?\t\r\n\x01\x7f", 0, 24),
+            10 => gen::from_alphabet("abc XYZ", 25, 300),
+            // one string cell in seventy is long: around 4 KiB, 8 KiB, 64 KiB, or anything up to 20 000 characters
+            1 => gen::long_ascii(),
         ]
         .prop_map(Cell::Str)
         .boxed(),
@@ -188,6 +190,11 @@ fn check_rows(exd: &EXD, exh: &EXH, s: &Schema, rows: &[Row], ctx: &Ctx) -> PRes
                     return fail(&slug, format!("row {} sub-row {} column {} ({} @ offset {}): physis={:?} stored={:?}", r.id, k, ci, tyname, s.columns[ci].offset, gc, wc));
                 }
                 ctx.classf(format!("type:{}", TYPE_NAMES[s.columns[ci].ty as usize]));
+                if let Cell::Str(t) = wc {
+                    if t.len() >= 1000 {
+                        ctx.classf(format!("string-length:{}", if t.len() < 4000 { "1000-3999" } else if t.len() < 4200 { "~4096" } else if t.len() < 8100 { "4200-8099" } else if t.len() < 8300 { "~8192" } else if t.len() < 65_000 { "8300-64999" } else { "~65536" }));
+                    }
+                }
             }
         }
         ctx.classf(format!("subrows:{}", match r.subrows.len() { 1 => "1", 2..=8 => "2-8", _ => ">8" }));
@@ -362,7 +369,7 @@ fn prop_archive(c: &ArchiveCase, ctx: &Ctx) -> PResult {
     let mut next = [2048u64, 2048u64];
     for (i, (path, data)) in files.iter().enumerate() {
         let d = i % 2;
-        let blocks: Vec<BlockSpec> = data.chunks(700).enumerate().map(|(k, ch)| BlockSpec { data: ch.to_vec(), mode: crate::build::deflate::MODES[(i + k) % 6] }).collect();
+        let blocks: Vec<BlockSpec> = data.chunks(700).enumerate().map(|(k, ch)| BlockSpec { data: ch.to_vec(), mode: crate::build::deflate::MODES[(i + k) % 8] }).collect();
         let entry = sqpack::standard_entry(&blocks, 0, &[]);
         records.push(IndexRecord { path: path.clone(), dat_id: d as u8, offset: next[d], synonym: false });
         let len = entry.len() as u64;
